@@ -468,6 +468,47 @@ func genC20(e *emitter, r *rng, thorough bool) {
 		tape := runWithGenTape(r, -1, func() { _, _ = envelope.NewJSONEnvelope(json.RawMessage(pl)) })
 		e.emit("new.escapes", "env.new "+hx(pl)+" "+tape)
 	}
+	// encoding/json on strings (the model of the envelope's own round trip, Model/JsonString): every byte, every escape,
+	// every class of ill-formed UTF-8, surrogate escapes, literals the decoder must reject
+	{
+		for c := 0; c < 256; c++ {
+			e.emit("json.quote.byte", "json.quote "+hx([]byte{byte(c)}))
+			e.emit("json.quote.byte-ctx", "json.quote "+hx([]byte{'a', byte(c), 'b'}))
+			e.emit("json.unquote.byte", "json.unquote "+hx([]byte{'"', byte(c), '"'}))
+			e.emit("json.unquote.escape", "json.unquote "+hx([]byte{'"', '\\', byte(c), '"'}))
+		}
+		seqs := [][]byte{{0xc2, 0x80}, {0xdf, 0xbf}, {0xe0, 0xa0, 0x80}, {0xe2, 0x80, 0xa8}, {0xe2, 0x80, 0xa9}, {0xe2, 0x80, 0xaa}, {0xed, 0x9f, 0xbf}, {0xee, 0x80, 0x80}, {0xef, 0xbf, 0xbd},
+			{0xf0, 0x90, 0x80, 0x80}, {0xf4, 0x8f, 0xbf, 0xbf}, {0xff}, {0xc0, 0x80}, {0xc2}, {0xe0, 0x9f, 0xbf}, {0xed, 0xa0, 0x80}, {0xf0, 0x8f, 0xbf, 0xbf}, {0xf4, 0x90, 0x80, 0x80},
+			{0xe2, 0x82}, {0xf0, 0x9f, 0x98}, {0xf5, 0x80, 0x80, 0x80}}
+		for _, q := range seqs {
+			e.emit("json.quote.seq", "json.quote "+hx(q))
+			e.emit("json.roundtrip.seq", "json.roundtrip "+hx(append(append([]byte("x\\"), q...), '"')))
+			e.emit("json.unquote.seq", "json.unquote "+hx(append(append([]byte{'"'}, q...), '"')))
+		}
+		for _, u := range []string{`\u0041`, `\u00e9`, `\u20ac`, `\ud83d\ude00`, `\ud83d`, `\ude00`, `\ud83dx`, `\ud83d\u0041`, `\udbff\udfff`, `\ud800\udc00`, `\uD83D\uDE00`, `\u004`, `\u00zz`, `\u`, `\U0041`,
+			`\ud83d\ud83d\ude00`, `\u0000`, `\u001f`, `\u2028`, `\ufffd`, `\uffff`} {
+			e.emit("json.unquote.u", "json.unquote "+hx([]byte(`"`+u+`"`)))
+			e.emit("json.unquote.u-ctx", "json.unquote "+hx([]byte(`"a`+u+`b\n"`)))
+		}
+		for _, lit := range []string{`""`, `"`, `"a"b"`, `"\"`, `"\\"`, `"\\\"`, "\"\n\"", "\"\t\"", `"a\/b"`, `"\b\f\n\r\t"`, `"\'"`, `"\x41"`, `"\0"`} {
+			e.emit("json.unquote.lit", "json.unquote "+hx([]byte(lit)))
+		}
+		for i := 0; i < n; i++ {
+			b := r.bytes(r.intn(24))
+			for j := range b {
+				switch r.intn(5) {
+				case 0:
+					b[j] = byte(0x20 + r.intn(0x5f))
+				case 1:
+					b[j] = []byte("\"\\<>&\n\t\x00\x1f\x7f/")[r.intn(11)]
+				}
+			}
+			e.emit("json.quote.rand", "json.quote "+hx(b))
+			e.emit("json.roundtrip.rand", "json.roundtrip "+hx(b))
+			lit := append(append([]byte{'"'}, b...), '"')
+			e.emit("json.unquote.rand", "json.unquote "+hx(lit))
+		}
+	}
 	// constructed signatures whose nonce point has x in [N, P)
 	nc := 6
 	if thorough {
